@@ -43,6 +43,26 @@ fn dur(v: &Value) -> Option<Duration> {
 pub fn main(rest: &[String]) -> i32 {
     let f = std::io::BufReader::new(std::fs::File::open(&rest[0]).unwrap());
     let mut out = std::io::BufWriter::new(std::fs::File::create(&rest[1]).unwrap());
+    // Watchdog: a search that does not come back within VERIF_SEARCH_WATCHDOG_S seconds is data ("out":"timeout"),
+    // written by the watchdog thread, which then ends the process (the searches after it are not run).
+    let limit = std::env::var("VERIF_SEARCH_WATCHDOG_S").ok().and_then(|v| v.parse::<u64>().ok()).unwrap_or(0);
+    let current: std::sync::Arc<std::sync::Mutex<Option<(Instant, String)>>> = std::sync::Arc::new(std::sync::Mutex::new(None));
+    if limit > 0 {
+        let current = current.clone();
+        let path = rest[1].clone();
+        std::thread::spawn(move || loop {
+            std::thread::sleep(Duration::from_millis(500));
+            let g = current.lock().unwrap();
+            if let Some((t0, ev)) = g.as_ref() {
+                if t0.elapsed() > Duration::from_secs(limit) {
+                    // the main thread holds the buffered writer; events already written are flushed after every search
+                    let mut f = std::fs::OpenOptions::new().append(true).open(&path).unwrap();
+                    writeln!(f, "{ev}").unwrap();
+                    std::process::exit(0);
+                }
+            }
+        });
+    }
     for (si, line) in f.lines().enumerate() {
         let line = line.unwrap();
         if line.trim().is_empty() {
@@ -88,6 +108,17 @@ pub fn main(rest: &[String]) -> i32 {
                     moves_to_go: s["mtg"].as_u64().map(|x| x as u32),
                 });
             }
+            {
+                let mut ev: Map<String, Value> = proj::position(&game);
+                for (k, v) in [("fen", json!(game.to_fen())), ("session", json!(si)), ("idx", json!(qi)), ("tag", json!(tag.clone())),
+                               ("hash", json!(hash)), ("lim", json!(depth.unwrap_or(0))), ("stopk", json!(0)), ("polls", json!(0)),
+                               ("nodes_at_stop", json!(0)), ("max_nodes", json!(0)), ("ms", json!(0)), ("infos", json!([])), ("gen", json!(0)),
+                               ("untouched", json!(true)), ("out", json!("timeout")), ("best", json!("")),
+                               ("msg", json!(format!("no result after {limit} s")))] {
+                    ev.insert(k.into(), v);
+                }
+                *current.lock().unwrap() = Some((Instant::now(), Value::Object(ev).to_string()));
+            }
             let before = proj::full(&game);
             let hist_before = game.history.len();
             let stopk = s["stopk"].as_i64().unwrap_or(0);
@@ -132,6 +163,7 @@ pub fn main(rest: &[String]) -> i32 {
                     ev.insert("msg".into(), json!(msg));
                 }
             }
+            *current.lock().unwrap() = None;
             writeln!(out, "{}", Value::Object(ev)).unwrap();
             out.flush().unwrap();
         }
